@@ -95,15 +95,19 @@ structure Inv (s : St) : Prop where
 theorem setBatch_self (s : St) (b : Nat) (x : Batch) : setBatch s b x b = x := by simp [setBatch]
 theorem setBatch_ne (s : St) (b y : Nat) (x : Batch) (h : y ≠ b) : setBatch s b x y = s.batch y := by simp [setBatch, h]
 
-theorem inv_initP (recs present : List Bool) (max : Nat) (h : recs.count true ≤ max) : Inv (initP recs present max) := by
+theorem inv_initE (recs present expiring : List Bool) (max : Nat) (h : recs.count true ≤ max) :
+    Inv (initE recs present expiring max) := by
   refine ⟨?_, ?_⟩
-  · intro b; simp [initP, Batch.empty, inCS]
-  · simp [initP, matching, slack]; exact h
+  · intro b; simp [initE, Batch.empty, inCS]
+  · simp [initE, matching, slack]; exact h
+
+theorem inv_initP (recs present : List Bool) (max : Nat) (h : recs.count true ≤ max) : Inv (initP recs present max) :=
+  inv_initE _ _ _ _ h
 
 theorem inv_init (recs : List Bool) (max : Nat) (h : recs.count true ≤ max) : Inv (init recs max) := by
   refine ⟨?_, ?_⟩
-  · intro b; simp [init, initP, Batch.empty, inCS]
-  · simp [init, initP, matching, slack]; exact h
+  · intro b; simp [init, initP, initE, Batch.empty, inCS]
+  · simp [init, initP, initE, matching, slack]; exact h
 
 theorem slack_le_of_not_holder_run (s : St) (h : ∀ b, s.capMu = some b → (s.batch b).pc ≠ .run) : slack s = 0 := by
   unfold slack
@@ -250,7 +254,7 @@ theorem inv_step (s : St) (a : Act) (s' : St) (h : Inv s) (hs : step good s a = 
   | delete k =>
     simp [step] at hs; subst hs
     refine ⟨hH, ?_⟩
-    have : slack { s with recs := s.recs.set k false, present := s.present.set k false } = slack s := rfl
+    have : slack { s with recs := s.recs.set k false, present := s.present.set k false, expiring := s.expiring.set k false } = slack s := rfl
     show (s.recs.set k false).count true + _ ≤ s.max
     rw [this]
     have := count_set_false_le s.recs k
